@@ -5,7 +5,7 @@
 From Coq Require Import List NArith Bool Arith.
 From SV Require Import Clock.VClock Prim.Objects Prim.Atomic Engine.Exec.
 From SV Require Export Lang.Code Lang.ThreadOps.
-From SV Require Import Prim.Semaphore Lang.SyncOps Lang.SyncOps2.
+From SV Require Import Prim.Semaphore Lang.SyncOps Lang.SyncOps2 Lang.AsyncOps.
 Import ListNotations.
 
 Inductive op :=
@@ -40,7 +40,14 @@ Inductive op :=
 | PDropRx (ch : nat)               (* drop of the receiver *)
 | PBarrier (b : nat)               (* Barrier::wait *)
 | PCallOnce (o : nat) (body : nat) (* Once::call_once(|| body) *)
-| PIsCompleted (o : nat).
+| PIsCompleted (o : nat)
+| PASpawn (body : nat)             (* future::spawn_local(async body); the JoinHandle becomes the task's next async handle *)
+| PAwait (h : nat)                 (* handle.await in an async body, block_on(handle) in a thread *)
+| PAbort (h : nat)                 (* handle.abort() *)
+| PDetach (h : nat)                (* drop(handle) *)
+| PAYield                          (* future::yield_now().await (block_on(yield_now()) in a thread) *)
+| PBlockOn (body : nat)            (* future::block_on(async body) *)
+| PIsFinished (h : nat).
 
 (* result tags used in EvOp records; the harness prints the same numbers *)
 Definition TAG_SPAWN : N := 1.  Definition TAG_JOIN : N := 2.   Definition TAG_YIELD : N := 3.
@@ -54,6 +61,8 @@ Definition TAG_CVWAIT : N := 21. Definition TAG_CVNOTIFY : N := 22.
 Definition TAG_SEND : N := 23. Definition TAG_RECV : N := 24. Definition TAG_DROPTX : N := 25. Definition TAG_DROPRX : N := 26.
 Definition TAG_BARRIER : N := 27. Definition TAG_CALLONCE : N := 28. Definition TAG_ISCOMPLETED : N := 29.
 Definition TAG_INIT : N := 30.
+Definition TAG_ASPAWN : N := 31. Definition TAG_AWAIT : N := 32. Definition TAG_ABORT : N := 33. Definition TAG_DETACH : N := 34.
+Definition TAG_AYIELD : N := 35. Definition TAG_BLOCKON : N := 36. Definition TAG_ISFINISHED : N := 37.
 
 (* ---- whole programs ---- *)
 Definition nth_handle (hs : list nat) (h : nat) : option nat := nth_error hs h.
@@ -95,92 +104,145 @@ Definition RX_SLOT : nat := 3.
    body's own when the body panics); `fin gs` is what follows the body's last operation, given the
    guards the body still holds.  A thread ends with its END record, the drop of its guards and thread_fn's
    epilogue; an inline closure (call_once) ends with the drop of its guards and the caller's continuation. *)
-Definition thread_fin (gs : list (nat * bool)) : code := Log TAG_END [] (drop_guards true gs thread_epilogue).
+(* JoinHandles of spawned futures still owned when a body returns are dropped: each drop detaches its task *)
+Fixpoint detach_all (ahs : list nat) (k : code) : code :=
+  match ahs with
+  | [] => k
+  | t :: r => atomic_u (fun e st => detach_handle e st t) (detach_all r k)
+  end.
 
-Fixpoint comp (fuel : nat) (bodies : list (list op)) (b : nat) (fin : list (nat * bool) -> code) (outer : list (nat * bool)) : code :=
+Definition thread_fin (gs : list (nat * bool)) (ahs : list nat) : code :=
+  Log TAG_END [] (drop_guards true gs (detach_all ahs thread_epilogue)).
+
+(* the end of a spawned future: locals dropped, then Wrapper::finish(Ok(value)); no thread_fn epilogue *)
+Definition async_fin (jt : nat) (value : N) (gs : list (nat * bool)) (ahs : list nat) : code :=
+  Log TAG_END [] (drop_guards true gs (detach_all ahs
+    (atomic_u (fun e st => wrapper_finish e st jt (Some value)) Ret))).
+
+(* Wrapper::poll finding the abort flag set: the future is dropped (its live locals with it), then finish(Err(Cancelled)) *)
+Definition async_abort (jt : nat) (gs : list (nat * bool)) (ahs : list nat) : code :=
+  drop_guards false gs (detach_all ahs (atomic_u (fun e st => wrapper_finish e st jt None) Ret)).
+
+(* async handles: (task id, still owned?) *)
+Definition live_handles (ahs : list (nat * bool)) : list nat := map fst (filter snd ahs).
+Fixpoint consume_handle (ahs : list (nat * bool)) (h : nat) : list (nat * bool) :=
+  match ahs, h with
+  | [], _ => []
+  | (t, _) :: r, O => (t, false) :: r
+  | x :: r, S h' => x :: consume_handle r h'
+  end.
+
+Fixpoint comp (fuel : nat) (jt : nat) (bodies : list (list op)) (b : nat) (ctx : pctx) (fin : list (nat * bool) -> list nat -> code) (outer : list (nat * bool)) : code :=
   match fuel with
   | O => Ret
   | S f =>
-    (fix go (ops : list op) (hs : list nat) (js : list nat) (gs : list (nat * bool)) : code :=
+    (fix go (ops : list op) (hs : list nat) (js : list nat) (gs : list (nat * bool)) (ahs : list (nat * bool)) : code :=
        match ops with
-       | [] => fin gs
+       | [] => fin gs (live_handles ahs)
        | o :: r =>
          match o with
-         | PSpawn j => Switch (SpawnNow (comp f bodies j thread_fin []) (fun tid => Log TAG_SPAWN [N.of_nat tid] (go r (hs ++ [tid]) js gs)))
+         | PSpawn j => Switch (SpawnNow (comp f jt bodies j CtxBlockOn thread_fin []) (fun tid => Log TAG_SPAWN [N.of_nat tid] (go r (hs ++ [tid]) js gs ahs)))
          | PJoin h => match nth_handle hs h with
                       | Some t => if existsb (Nat.eqb h) js then Panic      (* the JoinHandle was consumed *)
-                                  else join_code t (Log TAG_JOIN [N.of_nat t] (go r hs (h :: js) gs))
+                                  else join_code t (Log TAG_JOIN [N.of_nat t] (go r hs (h :: js) gs ahs))
                       | None => Panic end
-         | PYield => yield_code (Log TAG_YIELD [] (go r hs js gs))
-         | PPark => park_code (Log TAG_PARK [] (go r hs js gs))
+         | PYield => yield_code (Log TAG_YIELD [] (go r hs js gs ahs))
+         | PPark => park_code (Log TAG_PARK [] (go r hs js gs ahs))
          | PUnparkH h => match nth_handle hs h with
-                         | Some t => unpark_code t (Log TAG_UNPARK [N.of_nat t] (go r hs js gs))
+                         | Some t => unpark_code t (Log TAG_UNPARK [N.of_nat t] (go r hs js gs ahs))
                          | None => Panic end
-         | PUnparkT t => unpark_code t (Log TAG_UNPARK [N.of_nat t] (go r hs js gs))
-         | PRand => Rand (fun v => Log TAG_RAND [v] (go r hs js gs))
-         | PAtomic a o => atomic_code a u64 o (fun okf ret => Log TAG_ATOMIC [b2n okf; ret] (go r hs js gs))
-         | PResetSteps => atomic_u (fun e s => Some (e_reset_step_count e, s)) (Log TAG_RESET [] (go r hs js gs))
+         | PUnparkT t => unpark_code t (Log TAG_UNPARK [N.of_nat t] (go r hs js gs ahs))
+         | PRand => Rand (fun v => Log TAG_RAND [v] (go r hs js gs ahs))
+         | PAtomic a o => atomic_code a u64 o (fun okf ret => Log TAG_ATOMIC [b2n okf; ret] (go r hs js gs ahs))
+         | PResetSteps => atomic_u (fun e s => Some (e_reset_step_count e, s)) (Log TAG_RESET [] (go r hs js gs ahs))
          | PPanic => atomic_u (fun e st => Some (with_panicking e true, st)) (drop_guards false (gs ++ outer) Panic)   (* unwinding drops the guards, innermost scope first *)
-         | PSemAcq o n => acquire_blocking o n (fun ok => Log TAG_SEMACQ [b2n ok] (go r hs js gs))
-         | PSemTry o n => sem_try_code o n (fun res => Log TAG_SEMTRY [n_of_acq res] (go r hs js gs))
-         | PSemRel o n => sem_release_code o n (Log TAG_SEMREL [] (go r hs js gs))
-         | PSemClose o => sem_close_code o (Log TAG_SEMCLOSE [] (go r hs js gs))
+         | PSemAcq o n => acquire_blocking o n (fun ok => Log TAG_SEMACQ [b2n ok] (go r hs js gs ahs))
+         | PSemTry o n => sem_try_code o n (fun res => Log TAG_SEMTRY [n_of_acq res] (go r hs js gs ahs))
+         | PSemRel o n => sem_release_code o n (Log TAG_SEMREL [] (go r hs js gs ahs))
+         | PSemClose o => sem_close_code o (Log TAG_SEMCLOSE [] (go r hs js gs ahs))
          | PSemAvail o => Atomic (fun e st => match get_obj st o with
                                               | Some ob => match sem_of ob with
                                                            | Some sm => Some (e, st, [sm_avail sm; b2n (sm_closed sm)])
                                                            | None => None end
                                               | None => None end)
-                                 (fun a => Log TAG_SEMAVAIL a (go r hs js gs))
-         | PLock o => mutex_lock_code o (fun res => Log TAG_LOCK [n_of_lock res] (go r hs js ((o, false) :: gs)))
+                                 (fun a => Log TAG_SEMAVAIL a (go r hs js gs ahs))
+         | PLock o => mutex_lock_code o (fun res => Log TAG_LOCK [n_of_lock res] (go r hs js ((o, false) :: gs) ahs))
          | PTryLock o => mutex_try_lock_code o (fun res => Log TAG_TRYLOCK [n_of_lock res]
-                            (go r hs js (match res with LkWouldBlock => gs | _ => (o, false) :: gs end)))
+                            (go r hs js (match res with LkWouldBlock => gs | _ => (o, false) :: gs end) ahs))
          | PUnlock o => match take_guard o gs with
-                        | Some (_, gs') => mutex_unlock_code o (Log TAG_UNLOCK [N.of_nat o] (go r hs js gs'))
+                        | Some (_, gs') => mutex_unlock_code o (Log TAG_UNLOCK [N.of_nat o] (go r hs js gs' ahs))
                         | None => Panic end
-         | PRwLock o w => rw_lock_code o w (fun res => Log TAG_RWLOCK [b2n w; n_of_lock res] (go r hs js ((o, w) :: gs)))
+         | PRwLock o w => rw_lock_code o w (fun res => Log TAG_RWLOCK [b2n w; n_of_lock res] (go r hs js ((o, w) :: gs) ahs))
          | PRwTry o w => rw_try_code o w (fun res => Log TAG_RWTRY [b2n w; n_of_lock res]
-                            (go r hs js (match res with LkWouldBlock => gs | _ => (o, w) :: gs end)))
+                            (go r hs js (match res with LkWouldBlock => gs | _ => (o, w) :: gs end) ahs))
          | PRwUnlock o => match take_guard o gs with
-                          | Some (w, gs') => rw_unlock_code o w (Log TAG_RWUNLOCK [b2n w; N.of_nat o] (go r hs js gs'))
+                          | Some (w, gs') => rw_unlock_code o w (Log TAG_RWUNLOCK [b2n w; N.of_nat o] (go r hs js gs' ahs))
                           | None => Panic end
          | PCvWait cv m => match take_guard m gs with
-                           | Some (_, gs') => cv_wait_code cv m (fun res => Log TAG_CVWAIT [n_of_lock res] (go r hs js ((m, false) :: gs')))
+                           | Some (_, gs') => cv_wait_code cv m (fun res => Log TAG_CVWAIT [n_of_lock res] (go r hs js ((m, false) :: gs') ahs))
                            | None => Panic end
-         | PCvNotify cv all => cv_notify_code cv all (Log TAG_CVNOTIFY [b2n all] (go r hs js gs))
+         | PCvNotify cv all => cv_notify_code cv all (Log TAG_CVNOTIFY [b2n all] (go r hs js gs ahs))
          | PSend ch slot v =>
            atomic_b (fun e st => Some (e, st, endpoint_alive st ch slot))
-             (fun alive => if alive then chan_send_code ch v true (fun res => Log TAG_SEND [n_of_send res] (go r hs js gs)) else Panic)
+             (fun alive => if alive then chan_send_code ch v true (fun res => Log TAG_SEND [n_of_send res] (go r hs js gs ahs)) else Panic)
          | PTrySend ch slot v =>
            atomic_b (fun e st => Some (e, st, endpoint_alive st ch slot))
-             (fun alive => if alive then chan_send_code ch v false (fun res => Log TAG_SEND [n_of_send res] (go r hs js gs)) else Panic)
+             (fun alive => if alive then chan_send_code ch v false (fun res => Log TAG_SEND [n_of_send res] (go r hs js gs ahs)) else Panic)
          | PRecv ch =>
            atomic_b (fun e st => Some (e, st, endpoint_alive st ch RX_SLOT))
              (fun alive => if alive then chan_recv_code ch true (fun res =>
-                 Log TAG_RECV (match res with RvOk v => [0%N; v] | RvEmpty => [1%N] | RvDisconnected => [2%N] | RvBlock => [3%N] end) (go r hs js gs)) else Panic)
+                 Log TAG_RECV (match res with RvOk v => [0%N; v] | RvEmpty => [1%N] | RvDisconnected => [2%N] | RvBlock => [3%N] end) (go r hs js gs ahs)) else Panic)
          | PTryRecv ch =>
            atomic_b (fun e st => Some (e, st, endpoint_alive st ch RX_SLOT))
              (fun alive => if alive then chan_recv_code ch false (fun res =>
-                 Log TAG_RECV (match res with RvOk v => [0%N; v] | RvEmpty => [1%N] | RvDisconnected => [2%N] | RvBlock => [3%N] end) (go r hs js gs)) else Panic)
+                 Log TAG_RECV (match res with RvOk v => [0%N; v] | RvEmpty => [1%N] | RvDisconnected => [2%N] | RvBlock => [3%N] end) (go r hs js gs ahs)) else Panic)
          | PDropTx ch slot =>
            atomic_b (fun e st => Some (e, st, endpoint_alive st ch slot))
-             (fun alive => if alive then atomic_u (fun e st => chan_drop_tx e (endpoint_kill st ch slot) ch) (Log TAG_DROPTX [] (go r hs js gs)) else Panic)
+             (fun alive => if alive then atomic_u (fun e st => chan_drop_tx e (endpoint_kill st ch slot) ch) (Log TAG_DROPTX [] (go r hs js gs ahs)) else Panic)
          | PDropRx ch =>
            atomic_b (fun e st => Some (e, st, endpoint_alive st ch RX_SLOT))
-             (fun alive => if alive then atomic_u (fun e st => chan_drop_rx e (endpoint_kill st ch RX_SLOT) ch) (Log TAG_DROPRX [] (go r hs js gs)) else Panic)
-         | PBarrier b => barrier_wait_code b (fun leader => Log TAG_BARRIER [b2n leader] (go r hs js gs))
+             (fun alive => if alive then atomic_u (fun e st => chan_drop_rx e (endpoint_kill st ch RX_SLOT) ch) (Log TAG_DROPRX [] (go r hs js gs ahs)) else Panic)
+         | PBarrier b => barrier_wait_code b (fun leader => Log TAG_BARRIER [b2n leader] (go r hs js gs ahs))
          | PCallOnce o j =>
            Atomic (fun e st => match once_mutex st o with Some mx => Some (e, st, [N.of_nat mx]) | None => None end)
              (fun a => match a with
                        | [mx] => call_once_code o (N.to_nat mx)
-                                   (fun k => Log TAG_INIT [] (comp f bodies j (fun gs' => drop_guards true gs' k) ((N.to_nat mx, false) :: gs ++ outer)))
-                                   (Log TAG_CALLONCE [] (go r hs js gs))
+                                   (fun k => Log TAG_INIT [] (comp f jt bodies j ctx (fun gs' ahs' => drop_guards true gs' (detach_all ahs' k)) ((N.to_nat mx, false) :: gs ++ outer)))
+                                   (Log TAG_CALLONCE [] (go r hs js gs ahs))
                        | _ => Panic end)
-         | PIsCompleted o => atomic_b (fun e st => once_is_completed e st o) (fun c => Log TAG_ISCOMPLETED [b2n c] (go r hs js gs))
+         | PIsCompleted o => atomic_b (fun e st => once_is_completed e st o) (fun c => Log TAG_ISCOMPLETED [b2n c] (go r hs js gs ahs))
+         | PASpawn j =>
+           Switch (SpawnNow
+                     (atomic_b (fun e st => match wrapper_aborted e st jt with Some ab => Some (e, st, ab) | None => None end)
+                        (fun ab => if ab then async_abort jt [] []
+                                   else comp f jt bodies j CtxTask (async_fin jt (N.of_nat j)) []))
+                     (fun tid => atomic_u (fun e st => joins_register e st jt tid)
+                                   (Log TAG_ASPAWN [N.of_nat tid] (go r hs js gs (ahs ++ [(tid, true)])))))
+         | PAwait h => match nth_error ahs h with
+                       | Some (t, true) =>
+                         await_join AWAIT_FUEL (match ctx with CtxTask => CtxTask | _ => CtxBlockOn end) jt t
+                           (async_abort jt gs (live_handles ahs))
+                           (fun res => Log TAG_AWAIT (match res with Some v => [0%N; v] | None => [1%N] end)
+                                         (atomic_u (fun e st => detach_handle e st t) (go r hs js gs (consume_handle ahs h))))
+                       | _ => Panic end
+         | PAbort h => match nth_error ahs h with
+                       | Some (t, true) => abort_code jt t (Log TAG_ABORT [N.of_nat t] (go r hs js gs ahs))
+                       | _ => Panic end
+         | PDetach h => match nth_error ahs h with
+                        | Some (t, true) => atomic_u (fun e st => detach_handle e st t) (Log TAG_DETACH [N.of_nat t] (go r hs js gs (consume_handle ahs h)))
+                        | _ => Panic end
+         | PAYield => await_yield (match ctx with CtxTask => CtxTask | _ => CtxBlockOn end) jt (async_abort jt gs (live_handles ahs))
+                        (Log TAG_AYIELD [] (go r hs js gs ahs))
+         | PBlockOn j => Log TAG_BLOCKON [N.of_nat j]
+                           (comp f jt bodies j CtxBlockOn (fun gs' ahs' => drop_guards true gs' (detach_all ahs' (Log TAG_BLOCKON [] (go r hs js gs ahs)))) (gs ++ outer))
+         | PIsFinished h => match nth_error ahs h with
+                            | Some (t, true) => atomic_b (fun e st => is_finished_handle e st t) (fun fin_ => Log TAG_ISFINISHED [b2n fin_] (go r hs js gs ahs))
+                            | _ => Panic end
          end
-       end) (nth b bodies []) [] [] []
+       end) (nth b bodies []) [] [] [] []
   end.
 
-Definition compile (bodies : list (list op)) : code := comp (S (length bodies)) bodies 0 thread_fin [].
+Definition compile (jt : nat) (bodies : list (list op)) : code := comp (S (length bodies)) jt bodies 0 CtxBlockOn thread_fin [].
 
 (* ---- the scripted scheduler used by the correspondence check ---- *)
 Record script_state := mkScript { sc_script : list (option nat); sc_rnd : N }.
@@ -199,10 +261,10 @@ Definition scripted : scheduler script_state :=
 
 Definition run_prog (fuel : nat) (ms : max_steps) (objs : store) (bodies : list (list op)) (script : list (option nat)) (rseed : N)
   : world * script_state * outcome :=
-  run_exec scripted ms fuel (compile bodies) objs (mkScript script rseed).
+  run_exec scripted ms fuel (compile (length objs) bodies) (objs ++ [OJoins []]) (mkScript script rseed).
 
 (* check_dfs on a program: every execution's recorded schedule, in order *)
 From SV Require Import Engine.Runner Sched.Dfs.
 Definition run_prog_dfs (iters efuel : nat) (ms : max_steps) (max_iter : option nat) (objs : store) (bodies : list (list op))
   : list (world * Exec.outcome) * dfs_state * bool :=
-  runner_loop dfs_sched ms iters efuel (compile bodies) objs (mkDfsSt (dfs_new max_iter) false).
+  runner_loop dfs_sched ms iters efuel (compile (length objs) bodies) (objs ++ [OJoins []]) (mkDfsSt (dfs_new max_iter) false).
